@@ -978,6 +978,44 @@ def c18_sites(repo_root, tier):
     fn = tm.find("BlockNode.__init__") if tm else None
     ok = fn is not None and "self.blank = all((node.blank for node in nodes))" in ast.unparse(fn)
     _ob(obs, "liquid2.ast:BlockNode.__init__/site.blank-all-children", ok, "BlockNode.blank = all(child.blank)")
+    # (5b) a node that renders child blocks into the output buffer is blank only if every one of them is
+    from .sites_c11 import _methods, Roots, node_classes
+    for m, c in node_classes(repo, "Node"):
+        meth = _methods(repo, m, c)
+        rendered = {}
+        for mn in ("render_to_output", "render_to_output_async"):
+            if mn not in meth or meth[mn][1].name != c.name:
+                continue
+            fn = meth[mn][2]
+            bufname = fn.args.args[2].arg if len(fn.args.args) > 2 else "buffer"
+            roots = Roots(fn, meth)
+            for call in ast.walk(fn):
+                if isinstance(call, ast.Call) and isinstance(call.func, ast.Attribute) and call.func.attr in ("render", "render_async") \
+                        and any(isinstance(a, ast.Name) and a.id == bufname for a in call.args):
+                    for f in roots.of(call.func.value):
+                        rendered.setdefault(f, call.lineno)
+        if not rendered:
+            continue
+        init = next((st for st in c.body if isinstance(st, ast.FunctionDef) and st.name == "__init__"), None)
+        expr = None
+        for n in (ast.walk(init) if init else []):
+            if isinstance(n, ast.Assign) and ast.unparse(n.targets[0]) == "self.blank":
+                expr = n.value
+        if expr is None:
+            _ob(obs, f"{m.name}:{c.name}/site.blank-covers-rendered-children", False, f"{c.name} renders {sorted(rendered)} into the output buffer but never sets self.blank (default True)")
+            continue
+        if isinstance(expr, ast.Constant) and expr.value is False:
+            continue
+        # fields whose `.blank` the expression consults: X.blank with X rooted at the field (parameter, self.field or a loop variable over it)
+        iroots = Roots(init, meth, seed={a.arg: {a.arg} for a in init.args.args[1:] + init.args.kwonlyargs})
+        consulted = set()
+        for n in ast.walk(expr):
+            if isinstance(n, ast.Attribute) and n.attr == "blank":
+                consulted |= iroots.of(n.value)
+        miss = sorted(f for f in rendered if f not in consulted)
+        _ob(obs, f"{m.name}:{c.name}/site.blank-covers-rendered-children", not miss,
+            f"blank = {ast.unparse(expr)[:90]} consults every block rendered into the output ({sorted(rendered)})" if not miss
+            else f"{c.name} renders self.{miss[0]} into the output buffer but blank = {ast.unparse(expr)[:90]} does not consult {miss[0]}.blank")
     # (6) markers are read only by the lexer/parser, Content, Raw, trim and the serialisers
     bad = []
     allowed_fn = {"parse", "parse_block", "__str__", "__init__", "trim", "_expression_as_string", "_tag_as_line_statement"}
@@ -1373,3 +1411,11 @@ def c19_sites(repo_root, tier):
     _ob(obs, "liquid2.builtin.filters.find_filters:HasFilter.__call__/site.any-over-matches", ok, "has reduces any() over the match tests, not over the matching items (whose own truthiness is irrelevant)")
     return {"obligations": obs, "samples": [], "trusted": ["user __getitem__ is deterministic (the same lookup gives the same value in both forms)"], "functions": [],
             "assumptions": [], "not_covered": ["sort/uniq/compact/map/concat/slice laws, split/join, url and base64 inverses, strip/replace/remove: not under contract"]}
+
+
+@register("C01")
+def c01_blank_sites(repo_root, tier):
+    """Rendering semantics include `a block that would write text is never suppressed as blank`: the blank-flag obligations of C18."""
+    r = c18_sites(repo_root, tier)
+    obs = [o for o in r["obligations"] if "blank" in o["oid"] or "suppression" in o["oid"]]
+    return {"obligations": obs, "samples": [], "trusted": [], "functions": [], "assumptions": []}
